@@ -27,11 +27,11 @@ type c12In struct {
 }
 
 type c12Out struct {
-	Err     bool             // call: not found / unreg: nothing removed
-	Ver     int              // call
-	List    map[string]int   // list: name -> version
-	Order   []string         // list (resources): order
-	Unknown string           // something unparsable
+	Err     bool           // call: not found / unreg: nothing removed
+	Ver     int            // call
+	List    map[string]int // list: name -> version
+	Order   []string       // list (resources): order
+	Unknown string         // something unparsable
 }
 
 type c12State struct {
